@@ -131,7 +131,9 @@ def depsPass (rel : Rel) (db : DB) (predId : String → Option Nat) (dsId : Stri
       let prevAt := if since > 0 then timeAtPos db dd (since - 1) else none
       let reached := chain rel predId dsId now prevAt dep ids
       let emitted := reached.filter (mainLive db mainId · now)
-      depsPass rel db predId dsId cfg now rest (tok.setDep dep.ds cont) cache' (acc ++ emitted)
+      -- the dataset's token moves when the last dependency on that dataset is through (they share the page)
+      let tok' := if rest.any (·.ds == dep.ds) then tok else tok.setDep dep.ds cont
+      depsPass rel db predId dsId cfg now rest tok' cache' (acc ++ emitted)
     | _, _ => (acc, tok)      -- a missing dataset is an error of the run (not generated)
 
 /-- `IncrementalPipeline.sync` over a MultiSource that has run before: dependency windows, then one page of
